@@ -1,5 +1,6 @@
 import TnVerif.Model.Round
 import TnVerif.Lemmas.RoundTTBridge
+import TnVerif.Lemmas.OrthSweep
 import Mathlib.Tactic.IntervalCases
 import TnVerif.Generated
 import Mathlib.Algebra.Order.Field.Basic
@@ -157,6 +158,20 @@ example : let p : Mode K := { rl := 1, rr := 2, n := 2, G := fun i _ b => if i =
   · have h := (leastRank_spec A.sq (0 : K) A.sq.length 0).2.1
     have : A.sq.length = 2 := by simp [SVDAns.sq, A]
     omega
+
+/-- **`round_tt` end to end**: orthogonalisation sweep (QR answers, contract `qrOK`: `Q·R =` left unfolding, `QᵀQ = I`) followed by the
+    truncation sweep (SVD answers, contract `ansOK`), for any chain of TT cores with boundary ranks 1:
+    `‖T − round_tt(T)‖² ≤ eps²·‖T‖²`.  The hypotheses `chainLO`, `cur.rl = topRank rest` of `roundTT_within_eps` are DERIVED here from
+    the QR contracts (`Lemmas/OrthSweep`: the sweep preserves the tensor and leaves every core but the last left-orthonormal). -/
+theorem roundTT_end_to_end (thr eps : K) (ms : List (Mode K)) (qrs : List (QRAns K)) (svds : List (SVDAns K × Nat))
+    (cur : Mode K) (rest : List (Mode K))
+    (hwf : wf 1 ms) (hout : outRank 1 ms = 1) (hlen : qrs.length + 1 = ms.length) (hqr : qrOK ms qrs)
+    (hrev : (leftSweep ms qrs).reverse = cur :: rest)
+    (hok : ansOK thr (budget2 eps cur rest.length) (cur :: rest) svds)
+    (hun : uncapped thr (budget2 eps cur rest.length) (cur :: rest) svds) :
+    boxSum (ms.map (·.n)) (fun is => (dense ms is - dense (roundTTsem thr (budget2 eps cur rest.length) (leftSweep ms qrs) svds) is) ^ 2)
+      ≤ eps ^ 2 * boxSum (ms.map (·.n)) (fun is => dense ms is ^ 2) :=
+  TN.roundTT_end_to_end thr eps ms qrs svds cur rest hwf hout hlen hqr hrev hok hun
 
 -- NOT YET PROVED (full statements):
 --  * the same bound with Tucker factors present (needs: applying column-orthonormal factors mode-wise preserves Frobenius
